@@ -424,6 +424,22 @@ def require_names(f, names, what=None):
                              "re-anchor the rule (a rename is not a violation)" % (what or short(f.name), missing, short(f.name)))
 
 
+def branch(b):
+    """(operand, successor when the operand is true, successor when it is false) of a two-way branch, with every top-level `!` of
+    the condition removed.  `if` terminators are already stored that way (facts._normalise_negated_ifs: `if (!ok) A else B` is
+    `if (ok) B else A`); loops and short-circuit operators keep their spelling, so this is the one place rules ask."""
+    from ..expr import strip_casts
+    c = b.cond
+    if c is None or len(b.succs) != 2:
+        return None, None, None
+    c = strip_casts(c)
+    st, sf = b.succs[0], b.succs[1]
+    while c is not None and c.get("k") == "un" and c.get("op") == "!" and isinstance(c.get("v"), dict):
+        c = strip_casts(c["v"])
+        st, sf = sf, st
+    return c, st, sf
+
+
 def stop_waits_for_worker(r, f, what, join_pred, allowed_state_returns=()):
     """'after stop returns nothing of the worker runs': every way out of stop() is behind the worker thread's end — this caller's
     own join, or a condition-variable wait for the caller that is joining — except (a) a call made ON the worker thread itself
